@@ -246,12 +246,4 @@ theorem contract_chunks {α} {ds : DataSource} {t : Text} {d : Option Nat} {chun
   rw [h.flatten] at this
   exact this
 
-/-- sub-ranges inherit the FSI-width proviso -/
-theorem subrange_FSIWidth (ds : DataSource) (t : Text) (a b : Nat) (h : C02.FSIWidth ds t) :
-    C02.FSIWidth ds (t.subrange a b) := by
-  intro s hs hc
-  simp only [Text.subrange, List.mem_map, List.mem_filter] at hs
-  obtain ⟨s0, ⟨hs0, _⟩, rfl⟩ := hs
-  exact h s0 hs0 hc
-
 end UBidi.Props.C09
